@@ -390,25 +390,36 @@ var _ = fmt.Sprintf
 
 // Subst replaces the symbol d by the polynomial `by` in the polynomial a (ok=false for rational functions).
 func (s *Session) Subst(a Scalar, d SymDesc, by Scalar) (Scalar, bool) {
-	if a.v.d != nil || by.v.d != nil {
+	if by.v.d != nil {
 		return Scalar{}, false
 	}
 	st := s.k.e.ST
-	out := newPoly()
-	for _, t := range a.v.n.t {
-		p := PolyConst(t.c)
-		for _, se := range t.m {
-			f := PolySym(se.s)
-			if se.s == d.id {
-				f = by.v.n
+	sub := func(q *Poly) *Poly {
+		out := newPoly()
+		for _, t := range q.t {
+			p := PolyConst(t.c)
+			for _, se := range t.m {
+				f := PolySym(se.s)
+				if se.s == d.id {
+					f = by.v.n
+				}
+				for i := int32(0); i < se.e; i++ {
+					p = p.Mul(f, st)
+				}
 			}
-			for i := int32(0); i < se.e; i++ {
-				p = p.Mul(f, st)
-			}
+			out = out.Add(p)
 		}
-		out = out.Add(p)
+		return out
 	}
-	return Scalar{v: rfPoly(out), deps: a.deps.union(by.deps)}, true
+	if a.v.d != nil {
+		// a rational function: numerator and denominator separately (the symbol is not looked for inside applications)
+		den := sub(a.v.d)
+		if den.IsZero() {
+			return Scalar{}, false
+		}
+		return Scalar{v: mkRF(sub(a.v.n), den), deps: a.deps.union(by.deps)}, true
+	}
+	return Scalar{v: rfPoly(sub(a.v.n)), deps: a.deps.union(by.deps)}, true
 }
 
 // CoefSigns counts the terms of the polynomial a with a positive and with a negative coefficient and
@@ -539,3 +550,44 @@ func (s *Session) AppName(symName string) string {
 	}
 	return ""
 }
+
+// AppInfo is one uninterpreted application occurring in a scalar.
+type AppInfo struct {
+	Op   string
+	Args []Scalar
+	Name string
+}
+
+// AppsIn lists every uninterpreted application a mentions (recursively, each once, sorted by name).
+func (s *Session) AppsIn(a Scalar) []AppInfo {
+	e := s.k.e
+	seen := map[symID]bool{}
+	var out []AppInfo
+	var visit func(id symID)
+	visit = func(id symID) {
+		if seen[id] {
+			return
+		}
+		seen[id] = true
+		ai := e.apps[id]
+		if ai == nil {
+			return
+		}
+		inf := AppInfo{Op: ai.op, Name: e.ST.Name(id)}
+		for _, r := range ai.args {
+			inf.Args = append(inf.Args, Scalar{v: r})
+			for _, t := range r.Support() {
+				visit(t)
+			}
+		}
+		out = append(out, inf)
+	}
+	for _, id := range a.v.Support() {
+		visit(id)
+	}
+	sort.Slice(out, func(i, j int) bool { return out[i].Name < out[j].Name })
+	return out
+}
+
+// Rat is the constant num/den.
+func (s *Session) Rat(r *big.Rat) Scalar { return Scalar{v: rfPoly(PolyConst(r))} }
